@@ -672,7 +672,8 @@ def main():
                       "clone_model_and_freeze_auto_po2_scale is run inside keras custom_object_scope with qkeras' own custom-object table (its internal "
                       "tf.keras.models.clone_model call passes none, which Keras 3 rejects)",
                       "folded (QConv2DBatchnorm) and recurrent layers do not build under the pinned Keras 3 and are not generated"]
-  return rep.finish(vlib.TRUSTED_COMMON + ["model Export/Export.v is hand-written; tie = Coq checkers evaluated on the implementation's weights, signs, exponents, "
+  return rep.finish(vlib.TRUSTED_COMMON + ["translator tools/translate/exportgen.py regenerates coq/gen/ExportGen.v (per-quantizer bookkeeping of model_save_quantized_weights); Link/ExportLink.v proves it equal to Export/Book.v; tensor arithmetic of the exporter is tied by correspondence",
+                                          "model Export/Export.v is hand-written; tie = Coq checkers evaluated on the implementation's weights, signs, exponents, "
                                           "integer weights, scales and batch-norm terms"])
 
 
